@@ -38,6 +38,7 @@ def plan(tier, seed):
                     tasks.append({"kind": "mix", "dt": dt, "q": q, "rows": rows, "cyclic": False, "lo": lo, "hi": min(n, lo + CH)})
         tasks.append({"kind": "modules", "dt": dt})
         tasks.append({"kind": "calib", "dt": dt})
+        tasks.append({"kind": "soak_zero", "dt": dt, "n": 300 if tier == "quick" else 1500})
         for q in ("qint8", "qfloat8_e4m3fn", "qfloat8_e5m2", "qint4", "qint2"):
             tasks.append({"kind": "repeat", "dt": dt, "q": q, "n": 48 if tier == "quick" else 300})
         # size ladder: more than 2^20 elements, every degenerate class present many times (block-wise / in-place fast paths)
@@ -176,6 +177,53 @@ def _repeat_task(task, out):
                 if bool((row != 0).any()):
                     out["violations"].append(violation(PID, case, dict(fields, sub="zero_row"), f"zero_row: an all-zero row dequantizes to non-zero values in result #{i + 1}"))
                     break
+
+
+def _soak_zero_task(task, out):
+    """Repetition ladder for modules: an unfrozen module is evaluated many times, then rows of its weight are zeroed in place; the
+    next forward is finite and the zeroed output features equal the bias exactly."""
+    dtname = task["dt"]
+    dt = num.DTYPES[dtname]
+    only = task.get("only")
+    from optimum.quanto import quantize
+
+    for wname in WQ:
+        for how in ("inplace", "data"):
+            c = [wname, how]
+            if only and only != c:
+                continue
+            fields = {"kind": "soak_zero", "qtype": wname, "dtype": dtname, "update": how}
+            case = dict(task, only=c)
+            out["evals"] += 1
+            out["points"] += 1
+            out["nontrivial"] += 1
+            try:
+                lin = torch.nn.Linear(16, 4)
+                with torch.no_grad():
+                    for p in lin.parameters():
+                        p.copy_((((torch.arange(p.numel(), dtype=torch.float64) * 5) % 11 - 5) / 8).reshape(p.shape))
+                model = torch.nn.Sequential(lin).to(dt)
+                quantize(model, weights=num.qt(wname))
+                x = _batch("normal", (2, 16), dtname)
+                with torch.no_grad():
+                    for _ in range(task["n"]):
+                        model(x)
+                        out["calls"] += 1
+                    if how == "inplace":
+                        model[0].weight[1].zero_()
+                        model[0].weight[3].zero_()
+                    else:
+                        model[0].weight.data[1].zero_()
+                        model[0].weight.data[3].zero_()
+                    y = model(x)
+                if not bool(torch.isfinite(y).all()):
+                    out["violations"].append(violation(PID, case, dict(fields, sub="nonfinite"), f"nonfinite: after {task['n']} forwards and zeroing two weight rows ({how}) the output of a {wname} QLinear is not finite"))
+                    continue
+                b = model[0].bias.detach()
+                if not (num.same_bits(y[:, 1], b[1].expand(2)) and num.same_bits(y[:, 3], b[3].expand(2))):
+                    out["violations"].append(violation(PID, case, dict(fields, sub="zero_row_not_bias"), f"zero_row_not_bias: after {task['n']} forwards and zeroing two weight rows ({how}) the zeroed output features of a {wname} QLinear differ from the bias"))
+            except Exception as e:  # noqa
+                out["violations"].append(violation(PID, case, dict(fields, sub="raised"), f"raised: {type(e).__name__}: {e}"))
 
 
 def _modules_task(task, out):
@@ -325,6 +373,19 @@ def _calib_task(task, out):
                     except Exception as e:  # noqa
                         out["violations"].append(violation(PID, case, dict(fields, sub="raised"), f"raised: {type(e).__name__}: {e}"))
                         continue
+                    # the calibrated model converted to float16 (deployment in half precision) stays finite on the same batches
+                    if dtname != "float16" and cal in ("zero", "tiny", "subnormal", "normal") and inf in ("zero", "normal"):
+                        try:
+                            half = copy.deepcopy(model).to(torch.float16)
+                            with torch.no_grad():
+                                if bool(torch.isfinite(copy.deepcopy(twin).to(torch.float16)(_batch(inf, shape, "float16"))).all()):
+                                    yh = half(_batch(inf, shape, "float16"))
+                                    yh = yh.dequantize() if isinstance(yh, QBytesTensor) else yh
+                                    out["calls"] += 1
+                                    if not bool(torch.isfinite(yh).all()):
+                                        out["violations"].append(violation(PID, case, dict(fields, sub="nonfinite", converted="float16"), f"nonfinite: the model calibrated in {dtname} on '{cal}' and converted to float16 gives NaN/Inf on a finite '{inf}' batch ({mk},{aname})"))
+                        except Exception as e:  # noqa
+                            out["violations"].append(violation(PID, case, dict(fields, sub="raised", converted="float16"), f"raised: converting the calibrated model to float16: {type(e).__name__}: {e}"))
                     qm = model[0]
                     scs = {"input_scale": qm.input_scale, "output_scale": qm.output_scale}
                     badsc = [k for k, v in scs.items() if not bool(torch.isfinite(v).all())]
@@ -338,7 +399,7 @@ def _calib_task(task, out):
 
 def _run(task):
     out = {"evals": 0, "nontrivial": 0, "points": 0, "calls": 0, "violations": [], "samples": [], "counters": {}}
-    {"mix": _mix_task, "modules": _modules_task, "calib": _calib_task, "repeat": _repeat_task}[task["kind"]](task, out)
+    {"mix": _mix_task, "modules": _modules_task, "calib": _calib_task, "repeat": _repeat_task, "soak_zero": _soak_zero_task}[task["kind"]](task, out)
     return out
 
 
